@@ -12,6 +12,9 @@ Proof.
   rewrite firstn_app, Nat.sub_diag, firstn_all. cbn. apply app_nil_r.
 Qed.
 
+Lemma slice_self s : slice s s = [].
+Proof. unfold slice. now rewrite Nat.sub_diag. Qed.
+
 (* the character before the position reached after consuming [a] *)
 Definition lastp (p : option N) (a : str) : option N := fold_left (fun _ x => Some x) a p.
 Lemma lastp_app p a b : lastp p (a ++ b) = lastp (lastp p a) b.
@@ -70,6 +73,23 @@ Lemma dollar_brace_S n c endc :
       else if ch =? cDOL then do c1 <- walk_dollar g n (adv1 c) endc false; dollar_brace g n c1 endc
       else dollar_brace g n (adv1 c) endc
   end.
+Proof. reflexivity. Qed.
+
+Lemma dollar_name_S n c endc :
+  dollar_name g (S n) c endc =
+  match suf c with
+  | [] => Ok c
+  | ch :: rest =>
+      if ch =? endc then Ok c
+      else if isspace ch then Ok c
+      else if ch =? cDOL then walk_dollar g n (adv1 c) endc false
+      else if negb (isalnum ch) && negb (ch =? cUS) then Ok c
+      else dollar_name g n (adv1 c) endc
+  end.
+Proof. reflexivity. Qed.
+
+Lemma walk_here_lt n p X :
+  walk_here g (S n) (mkcur p (cLT :: cLT :: X)) = Ok (mkcur (Some cLT) X).
 Proof. reflexivity. Qed.
 
 Lemma walk_complex_S n c endc level first :
@@ -235,19 +255,61 @@ Ltac lastp_norm := unfold lastp; rewrite ?fold_left_app; cbn [fold_left]; try re
 Lemma tok_ind2 (P : tok -> Prop) :
   (forall c, P (TLit c)) -> (forall c, P (TEsc c)) -> (forall s, P (TSq s)) ->
   (forall l, P (TDq l)) -> (forall s, P (TPE s)) -> (forall l, P (TAnsi l)) ->
+  (forall s, P (TVar s)) -> (forall l, Forall P l -> P (TArith l)) -> (forall l, Forall P l -> P (TDqx l)) ->
+  P THs -> (forall l, P (TSub l)) ->
   (forall l, Forall P l -> P (TBr l)) -> (forall l, Forall P l -> P (TPar l)) ->
   forall t, P t.
 Proof.
-  intros H1 H2 H3 H4 H5 H5' H6 H7. fix IH 1. intros [c|c|s|l|s|l|l|l].
+  intros H1 H2 H3 H4 H5 H5' Hv Ha Hd Hh Hsu H6 H7. fix IH 1. intros [c|c|s|l|s|l|s|l|l| |l|l|l].
   - apply H1.
   - apply H2.
   - apply H3.
   - apply H4.
   - apply H5.
   - apply H5'.
+  - apply Hv.
+  - apply Ha. induction l as [|t l IHl]; constructor; [apply IH | exact IHl].
+  - apply Hd. induction l as [|t l IHl]; constructor; [apply IH | exact IHl].
+  - apply Hh.
+  - apply Hsu.
   - apply H6. induction l as [|t l IHl]; constructor; [apply IH | exact IHl].
   - apply H7. induction l as [|t l IHl]; constructor; [apply IH | exact IHl].
 Qed.
+
+Lemma ident_facts c : is_ident c = true ->
+  isspace c = false /\ isblank c = false /\ name_stop c = false /\ envvar_stop c = false
+  /\ (c =? cEQ) = false /\ (c =? cHASH) = false /\ (c =? cNUL) = false.
+Proof.
+  unfold is_ident. intros H.
+  repeat split;
+    match goal with |- ?f = false => destruct f eqn:E; [|reflexivity] end; exfalso;
+    unfold isspace, isblank, name_stop, envvar_stop, mem in E; cbn [existsb] in E;
+    repeat (apply orb_true_iff in E as [E|E]); try discriminate E;
+    repeat (apply andb_true_iff in E as [? E]);
+    repeat match goal with Hq : (_ =? _) = true |- _ => apply N.eqb_eq in Hq; subst; cbv in H; discriminate H end;
+    repeat match goal with Hq : (_ <=? _) = true |- _ => apply N.leb_le in Hq end;
+    repeat (apply orb_true_iff in H as [H|H]); repeat (apply andb_true_iff in H as [? H]);
+    repeat match goal with Hq : (_ <=? _) = true |- _ => apply N.leb_le in Hq end;
+    repeat match goal with Hq : (_ =? _) = true |- _ => apply N.eqb_eq in Hq end; unfold cUS in *; lia.
+Qed.
+
+Lemma ident_alnum c : is_ident c = true -> negb (isalnum c) && negb (c =? cUS) = false.
+Proof.
+  unfold is_ident, isalnum. intros H.
+  destruct ((48 <=? c) && (c <=? 57)), ((65 <=? c) && (c <=? 90)), ((97 <=? c) && (c <=? 122));
+    cbn in *; try reflexivity.
+  rewrite H. now rewrite andb_false_r.
+Qed.
+
+Lemma is_function_lp p X : is_function (mkcur p (cLP :: X)) = None.
+Proof.
+  unfold is_function. cbn [prev suf skip_while]. change (isblank cLP) with false. cbn [opt_bind prev suf].
+  change (starts_with kw_function (cLP :: X)) with false. cbn [prev suf skip_while].
+  change (isspace cLP) with false. cbn [opt_bind prev suf skip_while].
+  change (name_stop cLP) with true. cbn [negb opt_bind suf]. now rewrite slice_self.
+Qed.
+Lemma is_envvar_lp p X : is_envvar (mkcur p (cLP :: X)) = None.
+Proof. reflexivity. Qed.
 
 Section W2.
 Variable g : str.
@@ -307,216 +369,56 @@ Proof.
   reflexivity.
 Qed.
 
-End W2.
 
-Section W2toks.
-Variable g : str.
+(* $name *)
+Definition weak_follow (c : N) : bool := negb (isalnum c) && negb (c =? cUS) && negb (c =? cDOL).
 
-Lemma render_toks_cons t l : render_toks (t :: l) = render_tok t ++ render_toks l.
-Proof. reflexivity. Qed.
-
-(* the balanced-delimiter walker over a token list that ends with its closer *)
-Definition WEc (l : list tok) : Prop :=
-  forall endc n p rest, (endc = cRB \/ endc = cRP) -> (n > length (render_toks l))%nat ->
-  walk_escaped g n (mkcur p (render_toks l ++ endc :: rest)) endc
-  = Ok (mkcur (lastp p (render_toks l)) (endc :: rest)).
-
-Lemma WEc_nil : WEc [].
+Lemma dollar_name_app s : forall n p c Y endc,
+  forallb is_ident s = true -> is_ident endc = false -> weak_follow c = true -> (n > length s)%nat ->
+  dollar_name g n (mkcur p (s ++ c :: Y)) endc = Ok (mkcur (lastp p s) (c :: Y)).
 Proof.
-  intros endc n p rest He Hn. destruct n as [|n]; [cbn in Hn; lia|].
-  rewrite walk_escaped_S. cbn [render_toks flat_map app suf]. now rewrite N.eqb_refl.
+  induction s as [|x s IH]; intros n p c Y endc Hs He Hc Hn; (destruct n as [|n]; [cbn in Hn; lia|]).
+  - cbn [app]. rewrite dollar_name_S. cbn [suf]. unfold weak_follow in Hc.
+    apply andb_true_iff in Hc as [Hc H3]. apply negb_true_iff in H3.
+    destruct (c =? endc); [reflexivity|]. destruct (isspace c); [reflexivity|]. rewrite H3, Hc. reflexivity.
+  - cbn [forallb] in Hs. apply andb_true_iff in Hs as [Hx Hs].
+    destruct (ident_facts x Hx) as (Hsp&_&_&_&_&_&_).
+    cbn [app]. rewrite dollar_name_S. cbn [suf].
+    destruct (N.eqb_spec x endc) as [->|_]; [congruence|].
+    rewrite Hsp. rewrite (ident_alnum x Hx).
+    assert (x =? cDOL = false) as ->.
+    { destruct (N.eqb_spec x cDOL) as [->|]; [cbv in Hx; discriminate|reflexivity]. }
+    rewrite adv1_cons. rewrite IH; auto. cbn in Hn; lia.
 Qed.
 
-Definition WEstep (t : tok) : Prop := tok_ok true t = true -> forall tl, WEc tl -> WEc (t :: tl).
+Lemma walk_dollar_var s n p c Y endc dq :
+  forallb is_ident s = true -> is_ident endc = false -> var_follow s c = true -> (n > S (length s))%nat ->
+  walk_dollar g n (mkcur p (s ++ c :: Y)) endc dq = Ok (mkcur (lastp p s) (c :: Y)).
+Proof.
+  intros Hs He Hc Hn. destruct n as [|n]; [lia|].
+  unfold var_follow in Hc. apply andb_true_iff in Hc as [Hw Hstrict].
+  rewrite walk_dollar_S. destruct s as [|x s].
+  - cbn [app suf]. cbn [nonempty orb] in Hstrict.
+    assert (Hd : c =? cDOL = false).
+    { unfold weak_follow in *. apply andb_true_iff in Hw as [_ Hw]. now apply negb_true_iff in Hw. }
+    assert (c =? cLP = false /\ c =? cLB = false /\ c =? cSQ = false) as (E1&E2&E3).
+    { unfold mem in Hstrict; cbn [existsb] in Hstrict. apply negb_true_iff in Hstrict.
+      repeat (apply orb_false_iff in Hstrict as [? Hstrict]). auto. }
+    rewrite E1, E3. cbn [andb]. rewrite E2. cbn [negb]. rewrite Hd.
+    apply (dollar_name_app [] n p c Y endc); auto; cbn; lia.
+  - cbn [app suf]. assert (Hx : is_ident x = true) by (cbn [forallb] in Hs; now apply andb_true_iff in Hs as [Hx _]).
+    assert (x =? cLP = false /\ x =? cSQ = false /\ x =? cLB = false /\ x =? cDOL = false) as (E1&E2&E3&E4).
+    { repeat split; match goal with |- (x =? ?k) = false => destruct (N.eqb_spec x k) as [->|]; [cbv in Hx; discriminate|reflexivity] end. }
+    rewrite E1, E2. cbn [andb]. rewrite E3. cbn [negb]. rewrite E4.
+    apply (dollar_name_app (x :: s) n p c Y endc); auto. cbn in *; lia.
+Qed.
+End W2.
 
 Lemma forallb_neq_sq s : forallb sq_char s = true -> forallb (fun x => negb (x =? cSQ)) s = true.
 Proof.
   induction s as [|x s IH]; cbn; [reflexivity|]. intros H. apply andb_true_iff in H as [H1 H2].
   unfold sq_char in H1. apply andb_true_iff in H1 as [H1 _]. rewrite H1. now apply IH.
 Qed.
-
-Lemma WEstep_all : forall t, WEstep t.
-Proof.
-  apply tok_ind2.
-  - (* TLit *) intros c Hok tl IH endc n p rest He Hn.
-    rewrite render_toks_cons in *. cbn [render_tok] in *. rewrite app_length in Hn. cbn [length] in Hn.
-    destruct n as [|n]; [lia|].
-    change (([c] ++ render_toks tl) ++ endc :: rest) with (c :: (render_toks tl ++ endc :: rest)).
-    rewrite walk_escaped_S. cbn [suf]. cbn [tok_ok] in Hok.
-    destruct He; subst endc; ctest Hok; cbn [orb andb negb]; rewrite ?adv1_cons;
-      (rewrite IH; [|auto|lia]); lastp_norm.
-  - (* TEsc *) intros c Hok tl IH endc n p rest He Hn.
-    rewrite render_toks_cons in *. cbn [render_tok] in *. rewrite app_length in Hn. cbn [length] in Hn.
-    destruct n as [|n]; [lia|].
-    change (([cBS; c] ++ render_toks tl) ++ endc :: rest) with (cBS :: c :: (render_toks tl ++ endc :: rest)).
-    rewrite walk_escaped_S. cbn [suf].
-    destruct He; subst endc; cbn; rewrite ?adv1_cons; (rewrite IH; [|auto|lia]); lastp_norm.
-  - (* TSq *) intros s Hok tl IH endc n p rest He Hn.
-    rewrite render_toks_cons in *. cbn [render_tok] in *. rewrite !app_length in Hn. cbn [length] in Hn.
-    destruct n as [|n]; [lia|].
-    replace ((([cSQ] ++ s ++ [cSQ]) ++ render_toks tl) ++ endc :: rest)
-      with (cSQ :: (s ++ cSQ :: (render_toks tl ++ endc :: rest)))
-      by (cbn; rewrite <- !app_assoc; reflexivity).
-    rewrite walk_escaped_S. cbn [suf]. cbn [tok_ok] in Hok.
-    assert (Hs := forallb_neq_sq s Hok).
-    destruct He; subst endc; cbn -[walk_no_parsing walk_escaped]; rewrite ?adv1_cons;
-      rewrite walk_no_parsing_app by assumption; rewrite adv1_cons;
-      (rewrite IH; [|auto|lia]); lastp_norm.
-  - (* TDq *) intros l Hok tl IH endc n p rest He Hn.
-    rewrite render_toks_cons in *. cbn [render_tok] in *. rewrite !app_length in Hn. cbn [length] in Hn.
-    destruct n as [|n]; [lia|].
-    replace ((([cDQ] ++ render_pairs l ++ [cDQ]) ++ render_toks tl) ++ endc :: rest)
-      with (cDQ :: (render_pairs l ++ cDQ :: (render_toks tl ++ endc :: rest)))
-      by (cbn; rewrite <- !app_assoc; reflexivity).
-    rewrite walk_escaped_S. cbn [suf]. cbn [tok_ok] in Hok.
-    destruct He; subst endc; cbn -[walk_escaped]; rewrite ?adv1_cons;
-      (rewrite walk_dq; [|assumption|lia]); cbn [bind]; rewrite adv1_cons;
-      (rewrite IH; [|auto|lia]); lastp_norm.
-  - (* TPE *) intros s Hok tl IH endc n p rest He Hn.
-    rewrite render_toks_cons in *. cbn [render_tok] in *. rewrite !app_length in Hn. cbn [length] in Hn.
-    destruct n as [|n]; [lia|].
-    replace ((([cDOL; cLB] ++ s ++ [cRB]) ++ render_toks tl) ++ endc :: rest)
-      with (cDOL :: (cLB :: s ++ cRB :: (render_toks tl ++ endc :: rest)))
-      by (cbn; rewrite <- !app_assoc; reflexivity).
-    rewrite walk_escaped_S. cbn [suf]. cbn [tok_ok] in Hok.
-    destruct He; subst endc; cbn -[walk_escaped walk_dollar]; rewrite ?adv1_cons;
-      (rewrite walk_dollar_pe; [|assumption|lia]); cbn [bind];
-      (rewrite IH; [|auto|lia]); lastp_norm.
-  - (* TAnsi *) intros l Hok tl IH endc n p rest He Hn.
-    rewrite render_toks_cons in *. cbn [render_tok] in *. rewrite !app_length in Hn. cbn [length] in Hn.
-    destruct n as [|n]; [lia|].
-    replace ((([cDOL; cSQ] ++ render_pairs l ++ [cSQ]) ++ render_toks tl) ++ endc :: rest)
-      with (cDOL :: (cSQ :: render_pairs l ++ cSQ :: (render_toks tl ++ endc :: rest)))
-      by (cbn; rewrite <- !app_assoc; reflexivity).
-    rewrite walk_escaped_S. cbn [suf]. cbn [tok_ok] in Hok.
-    destruct He; subst endc; cbn -[walk_escaped walk_dollar]; rewrite ?adv1_cons;
-      (rewrite walk_dollar_ansi; [|assumption|lia]); cbn [bind];
-      (rewrite IH; [|auto|lia]); lastp_norm.
-  - (* TBr *) intros l HF Hok tl IH endc n p rest He Hn.
-    assert (Hl : WEc l).
-    { cbn [tok_ok] in Hok. clear -HF Hok. induction l as [|t l IHl]; [apply WEc_nil|].
-      cbn [forallb] in Hok. apply andb_true_iff in Hok as [H1 H2]. inversion HF; subst.
-      apply H3; [assumption|]. apply IHl; assumption. }
-    rewrite render_toks_cons in *. cbn [render_tok] in *. rewrite !app_length in Hn. cbn [length] in Hn.
-    destruct n as [|n]; [lia|].
-    replace ((([cLB] ++ flat_map render_tok l ++ [cRB]) ++ render_toks tl) ++ endc :: rest)
-      with (cLB :: (render_toks l ++ cRB :: (render_toks tl ++ endc :: rest)))
-      by (unfold render_toks; cbn; rewrite <- !app_assoc; reflexivity).
-    rewrite walk_escaped_S. cbn [suf].
-    destruct He; subst endc; cbn -[walk_escaped]; rewrite ?adv1_cons;
-      (rewrite Hl; [|auto|fold (render_toks l) in Hn; lia]); cbn [bind]; rewrite adv1_cons;
-      (rewrite IH; [|auto|lia]); fold (render_toks l); lastp_norm.
-  - (* TPar *) intros l HF Hok tl IH endc n p rest He Hn.
-    assert (Hl : WEc l).
-    { cbn [tok_ok] in Hok. clear -HF Hok. induction l as [|t l IHl]; [apply WEc_nil|].
-      cbn [forallb] in Hok. apply andb_true_iff in Hok as [H1 H2]. inversion HF; subst.
-      apply H3; [assumption|]. apply IHl; assumption. }
-    rewrite render_toks_cons in *. cbn [render_tok] in *. rewrite !app_length in Hn. cbn [length] in Hn.
-    destruct n as [|n]; [lia|].
-    replace ((([cLP] ++ flat_map render_tok l ++ [cRP]) ++ render_toks tl) ++ endc :: rest)
-      with (cLP :: (render_toks l ++ cRP :: (render_toks tl ++ endc :: rest)))
-      by (unfold render_toks; cbn; rewrite <- !app_assoc; reflexivity).
-    rewrite walk_escaped_S. cbn [suf].
-    destruct He; subst endc; cbn -[walk_escaped]; rewrite ?adv1_cons;
-      (rewrite Hl; [|auto|fold (render_toks l) in Hn; lia]); cbn [bind]; rewrite adv1_cons;
-      (rewrite IH; [|auto|lia]); fold (render_toks l); lastp_norm.
-Qed.
-
-Lemma WEc_all l : forallb (tok_ok true) l = true -> WEc l.
-Proof.
-  induction l as [|t l IH]; intros H; [apply WEc_nil|].
-  cbn [forallb] in H. apply andb_true_iff in H as [H1 H2].
-  apply WEstep_all; auto.
-Qed.
-End W2toks.
-
-Section W1.
-Variable g : str.
-
-(* the statement walker (function level, COMMAND_PARSING, endchar "}") over one statement *)
-Definition WCc (l : list tok) : Prop :=
-  forall n p rest sep first, (sep = cSEMI \/ sep = cNL) -> (n > length (render_toks l))%nat ->
-  walk_complex g n (mkcur p (render_toks l ++ sep :: rest)) cRB COMMAND first
-  = Ok (mkcur (lastp p (render_toks l)) (sep :: rest)).
-
-Lemma WCc_nil : WCc [].
-Proof.
-  intros n p rest sep first Hs Hn. destruct n as [|n]; [cbn in Hn; lia|].
-  rewrite walk_complex_S. cbn [render_toks flat_map app suf].
-  destruct Hs; subst sep; reflexivity.
-Qed.
-
-Lemma WCc_cons t tl : tok_ok1 t = true -> WCc tl -> WCc (t :: tl).
-Proof.
-  intros Hok IH n p rest sep first Hs Hn.
-  rewrite render_toks_cons in *.
-  destruct t as [c|c|s|l|s|l|l|l]; cbn [render_tok] in *; rewrite ?app_length in Hn; cbn [length] in Hn;
-    (destruct n as [|n]; [lia|]).
-  - (* TLit *)
-    change (([c] ++ render_toks tl) ++ sep :: rest) with (c :: (render_toks tl ++ sep :: rest)).
-    rewrite walk_complex_S. cbn [suf]. cbn [tok_ok1] in Hok.
-    ctest Hok; cbn [orb andb negb COMMAND]; rewrite ?adv1_cons;
-      (rewrite IH; [|auto|lia]); lastp_norm.
-  - (* TEsc *)
-    change (([cBS; c] ++ render_toks tl) ++ sep :: rest) with (cBS :: c :: (render_toks tl ++ sep :: rest)).
-    rewrite walk_complex_S. cbn [suf]. cbn. rewrite ?adv1_cons. (rewrite IH; [|auto|lia]); lastp_norm.
-  - (* TSq *)
-    replace ((([cSQ] ++ s ++ [cSQ]) ++ render_toks tl) ++ sep :: rest)
-      with (cSQ :: (s ++ cSQ :: (render_toks tl ++ sep :: rest)))
-      by (cbn; rewrite <- !app_assoc; reflexivity).
-    rewrite walk_complex_S. cbn [suf]. cbn [tok_ok1 tok_ok] in Hok.
-    assert (Hs' := forallb_neq_sq s Hok).
-    cbn -[walk_no_parsing walk_complex]. rewrite ?adv1_cons.
-    rewrite walk_no_parsing_app by assumption. rewrite adv1_cons.
-    (rewrite IH; [|auto|lia]); lastp_norm.
-  - (* TDq *)
-    replace ((([cDQ] ++ render_pairs l ++ [cDQ]) ++ render_toks tl) ++ sep :: rest)
-      with (cDQ :: (render_pairs l ++ cDQ :: (render_toks tl ++ sep :: rest)))
-      by (cbn; rewrite <- !app_assoc; reflexivity).
-    rewrite walk_complex_S. cbn [suf]. cbn [tok_ok1 tok_ok] in Hok.
-    cbn -[walk_escaped walk_complex]. rewrite ?adv1_cons.
-    (rewrite walk_dq; [|assumption|lia]). cbn [bind]. rewrite adv1_cons.
-    (rewrite IH; [|auto|lia]); lastp_norm.
-  - (* TPE *)
-    replace ((([cDOL; cLB] ++ s ++ [cRB]) ++ render_toks tl) ++ sep :: rest)
-      with (cDOL :: (cLB :: s ++ cRB :: (render_toks tl ++ sep :: rest)))
-      by (cbn; rewrite <- !app_assoc; reflexivity).
-    rewrite walk_complex_S. cbn [suf]. cbn [tok_ok1 tok_ok] in Hok.
-    cbn -[walk_dollar walk_complex]. rewrite ?adv1_cons.
-    (rewrite walk_dollar_pe; [|assumption|lia]). cbn [bind].
-    (rewrite IH; [|auto|lia]); lastp_norm.
-  - (* TAnsi *)
-    replace ((([cDOL; cSQ] ++ render_pairs l ++ [cSQ]) ++ render_toks tl) ++ sep :: rest)
-      with (cDOL :: (cSQ :: render_pairs l ++ cSQ :: (render_toks tl ++ sep :: rest)))
-      by (cbn; rewrite <- !app_assoc; reflexivity).
-    rewrite walk_complex_S. cbn [suf]. cbn [tok_ok1 tok_ok] in Hok.
-    cbn -[walk_dollar walk_complex]. rewrite ?adv1_cons.
-    (rewrite walk_dollar_ansi; [|assumption|lia]). cbn [bind].
-    (rewrite IH; [|auto|lia]); lastp_norm.
-  - (* TBr *)
-    replace ((([cLB] ++ flat_map render_tok l ++ [cRB]) ++ render_toks tl) ++ sep :: rest)
-      with (cLB :: (render_toks l ++ cRB :: (render_toks tl ++ sep :: rest)))
-      by (unfold render_toks; cbn; rewrite <- !app_assoc; reflexivity).
-    rewrite walk_complex_S. cbn [suf]. cbn [tok_ok1 tok_ok] in Hok.
-    cbn -[walk_escaped walk_complex]. rewrite ?adv1_cons.
-    (rewrite (WEc_all g l Hok); [|auto|fold (render_toks l) in Hn; lia]). cbn [bind]. rewrite adv1_cons.
-    (rewrite IH; [|auto|lia]); fold (render_toks l); lastp_norm.
-  - (* TPar *)
-    replace ((([cLP] ++ flat_map render_tok l ++ [cRP]) ++ render_toks tl) ++ sep :: rest)
-      with (cLP :: (render_toks l ++ cRP :: (render_toks tl ++ sep :: rest)))
-      by (unfold render_toks; cbn; rewrite <- !app_assoc; reflexivity).
-    rewrite walk_complex_S. cbn [suf]. cbn [tok_ok1 tok_ok] in Hok.
-    cbn -[walk_escaped walk_complex]. rewrite ?adv1_cons.
-    (rewrite (WEc_all g l Hok); [|auto|fold (render_toks l) in Hn; lia]). cbn [bind]. rewrite adv1_cons.
-    (rewrite IH; [|auto|lia]); fold (render_toks l); lastp_norm.
-Qed.
-
-Lemma WCc_all l : forallb tok_ok1 l = true -> WCc l.
-Proof.
-  induction l as [|t l IH]; intros H; [apply WCc_nil|].
-  cbn [forallb] in H. apply andb_true_iff in H as [H1 H2]. apply WCc_cons; auto.
-Qed.
-End W1.
 
 (* ---------------------------------------------------------------- statement starts *)
 Lemma isblank_isspace c : isblank c = true -> isspace c = true.
@@ -597,6 +499,578 @@ Proof.
   rewrite F in W. injection W as ->. rewrite Hd. reflexivity.
 Qed.
 
+Lemma is_function_stop p c r :
+  isspace c = false -> starts_with kw_function (c :: r) = false -> name_stop c = true ->
+  is_function (mkcur p (c :: r)) = None.
+Proof.
+  intros Hc Hk Hs. unfold is_function. cbn [prev suf skip_while].
+  destruct (isblank c) eqn:E; [apply isblank_isspace in E; congruence|].
+  cbn [opt_bind prev suf]. rewrite Hk. cbn [prev suf skip_while]. rewrite Hc. cbn [opt_bind prev suf skip_while].
+  rewrite Hs. cbn [negb opt_bind suf]. now rewrite slice_self.
+Qed.
+
+
+(* ---------------------------------------------------------------- $( one simple command ) *)
+Section Sub.
+Variable g : str.
+
+(* walk_command_complex with endchar ")" over flat tokens *)
+Definition WFc (l : list tok) : Prop :=
+  forall n p rest first, (n > 3 * length (render_toks l))%nat ->
+  walk_complex g n (mkcur p (render_toks l ++ cRP :: rest)) cRP COMMAND first
+  = Ok (mkcur (lastp p (render_toks l)) (cRP :: rest)).
+
+Lemma WFc_nil : WFc [].
+Proof. intros n p rest first Hn. destruct n as [|n]; [cbn in Hn; lia|]. reflexivity. Qed.
+
+Lemma render_toks_cons' t l : render_toks (t :: l) = render_tok t ++ render_toks l.
+Proof. reflexivity. Qed.
+
+Lemma next_char' s tl endc rest :
+  follow_ok (TVar s) tl = true -> var_follow s endc = true ->
+  exists c Y, render_toks tl ++ endc :: rest = c :: Y /\ var_follow s c = true.
+Proof.
+  unfold follow_ok. intros H He. destruct (render_toks tl) as [|c Y]; cbn [app]; eauto.
+Qed.
+
+Lemma WFc_cons t tl : flat_tok t = true -> follow_ok t tl = true -> WFc tl -> WFc (t :: tl).
+Proof.
+  intros Hok Hfo IH n p rest first Hn. rewrite render_toks_cons' in *.
+  destruct t as [c|c|s|l|s|l|s|l|l| |l|l|l]; try discriminate Hok;
+    cbn [render_tok flat_tok] in *; rewrite ?app_length in Hn; cbn [length] in Hn; (destruct n as [|n]; [lia|]).
+  - (* TLit *)
+    change (([c] ++ render_toks tl) ++ cRP :: rest) with (c :: (render_toks tl ++ cRP :: rest)).
+    rewrite walk_complex_S. cbn [suf].
+    ctest Hok; cbn [orb andb negb COMMAND]; rewrite ?adv1_cons; (rewrite IH; [|lia]); lastp_norm.
+  - (* TEsc *)
+    change (([cBS; c] ++ render_toks tl) ++ cRP :: rest) with (cBS :: c :: (render_toks tl ++ cRP :: rest)).
+    rewrite walk_complex_S. cbn [suf]. cbn. rewrite ?adv1_cons. (rewrite IH; [|lia]); lastp_norm.
+  - (* TSq *)
+    replace ((([cSQ] ++ s ++ [cSQ]) ++ render_toks tl) ++ cRP :: rest)
+      with (cSQ :: (s ++ cSQ :: (render_toks tl ++ cRP :: rest)))
+      by (cbn; rewrite <- !app_assoc; reflexivity).
+    rewrite walk_complex_S. cbn [suf]. assert (Hs' := forallb_neq_sq s Hok).
+    cbn -[walk_no_parsing walk_complex]. rewrite ?adv1_cons.
+    rewrite walk_no_parsing_app by assumption. rewrite adv1_cons.
+    (rewrite IH; [|lia]); lastp_norm.
+  - (* TDq *)
+    replace ((([cDQ] ++ render_pairs l ++ [cDQ]) ++ render_toks tl) ++ cRP :: rest)
+      with (cDQ :: (render_pairs l ++ cDQ :: (render_toks tl ++ cRP :: rest)))
+      by (cbn; rewrite <- !app_assoc; reflexivity).
+    rewrite walk_complex_S. cbn [suf].
+    cbn -[walk_escaped walk_complex]. rewrite ?adv1_cons.
+    (rewrite walk_dq; [|assumption|lia]). cbn [bind]. rewrite adv1_cons.
+    (rewrite IH; [|lia]); lastp_norm.
+  - (* TPE *)
+    replace ((([cDOL; cLB] ++ s ++ [cRB]) ++ render_toks tl) ++ cRP :: rest)
+      with (cDOL :: (cLB :: s ++ cRB :: (render_toks tl ++ cRP :: rest)))
+      by (cbn; rewrite <- !app_assoc; reflexivity).
+    rewrite walk_complex_S. cbn [suf].
+    cbn -[walk_dollar walk_complex]. rewrite ?adv1_cons.
+    (rewrite walk_dollar_pe; [|assumption|lia]). cbn [bind].
+    (rewrite IH; [|lia]); lastp_norm.
+  - (* TAnsi *)
+    replace ((([cDOL; cSQ] ++ render_pairs l ++ [cSQ]) ++ render_toks tl) ++ cRP :: rest)
+      with (cDOL :: (cSQ :: render_pairs l ++ cSQ :: (render_toks tl ++ cRP :: rest)))
+      by (cbn; rewrite <- !app_assoc; reflexivity).
+    rewrite walk_complex_S. cbn [suf].
+    cbn -[walk_dollar walk_complex]. rewrite ?adv1_cons.
+    (rewrite walk_dollar_ansi; [|assumption|lia]). cbn [bind].
+    (rewrite IH; [|lia]); lastp_norm.
+  - (* TVar *)
+    assert (Hce : var_follow s cRP = true) by (unfold var_follow; cbn; now rewrite orb_true_r).
+    destruct (next_char' s tl cRP rest Hfo Hce) as (c & Y & EY & Hc).
+    replace (((cDOL :: s) ++ render_toks tl) ++ cRP :: rest) with (cDOL :: (s ++ (render_toks tl ++ cRP :: rest)))
+      by (cbn; rewrite <- app_assoc; reflexivity).
+    rewrite walk_complex_S. cbn [suf].
+    cbn -[walk_dollar walk_complex]. rewrite ?adv1_cons. rewrite EY.
+    (rewrite walk_dollar_var; [|assumption|reflexivity|assumption|lia]). cbn [bind]. rewrite <- EY.
+    (rewrite IH; [|lia]); lastp_norm.
+Qed.
+
+Lemma WFc_all l : forallb flat_tok l = true -> follows l = true -> WFc l.
+Proof.
+  induction l as [|t l IH]; intros H1 H3; [apply WFc_nil|].
+  cbn [forallb follows] in *. apply andb_true_iff in H1 as [A1 A2]. apply andb_true_iff in H3 as [C1 C2].
+  apply WFc_cons; auto.
+Qed.
+
+(* one iteration of process_scope (endchar ")") on a statement start *)
+Lemma ps_sub_step text0 rest n p ws out :
+  stmt_start_ok text0 = true ->
+  match text0 with c :: _ => negb (c =? cRP) | [] => false end = true ->
+  process_scope g (S n) (mkcur p (text0 ++ rest)) cRP None None ws None out =
+    (do c1 <- walk_complex g n (mkcur p (text0 ++ rest)) cRP COMMAND true;
+     process_scope g n (match hd_ c1 with
+                        | Some x => if x =? cRP then c1 else adv1 c1
+                        | None => c1 end) cRP None None ws None out).
+Proof.
+  intros H Hrp. destruct text0 as [|c r]; [discriminate|]. unfold stmt_start_ok in H.
+  apply andb_true_iff in H as [H HG]. apply andb_true_iff in H as [H HF].
+  apply andb_true_iff in H as [H HE]. apply andb_true_iff in H as [H HD].
+  apply andb_true_iff in H as [H HC]. apply andb_true_iff in H as [HA HB].
+  apply negb_true_iff in HA, HB, HC, HD, Hrp.
+  cbn [app]. rewrite process_scope_S. cbn [suf]. rewrite Hrp, HA, HB.
+  assert (HF' : is_function (mkcur p (c :: r ++ rest)) = None).
+  { destruct (name_stop c) eqn:Ens.
+    - apply is_function_stop; auto.
+      change (c :: r ++ rest) with ((c :: r) ++ rest). now apply diverges_app.
+    - cbn [orb] in HG. destruct (word_then (c :: r)) as [d|] eqn:W; [|discriminate].
+      apply negb_true_iff in HG. apply (is_function_none p c (r ++ rest) d); auto.
+      + change (c :: r ++ rest) with ((c :: r) ++ rest). now apply diverges_app.
+      + change (c :: r ++ rest) with ((c :: r) ++ rest). now apply word_then_app. }
+  rewrite HF'. rewrite is_envvar_none; auto.
+  change (c :: r ++ rest) with ((c :: r) ++ rest). now apply no_eq_app.
+Qed.
+
+Lemma walk_dollar_sub l n p rest endc dq :
+  sub_ok l = true -> (n > 3 * length (render_toks l) + 8)%nat ->
+  walk_dollar g n (mkcur p (cLP :: render_toks l ++ cRP :: rest)) endc dq = Ok (mkcur (Some cRP) rest).
+Proof.
+  unfold sub_ok. intros H Hn. apply andb_true_iff in H as [H Hne]. apply andb_true_iff in H as [H Hst].
+  apply andb_true_iff in H as [Hfl Hfo].
+  destruct n as [|n]; [lia|]. rewrite walk_dollar_S. cbn [suf].
+  change (cLP =? cLP) with true. cbn iota. rewrite ?adv1_cons.
+  destruct n as [|n]; [lia|].
+  replace (render_toks l ++ cRP :: rest) with ((render_toks l ++ [cRP]) ++ rest) by (rewrite <- app_assoc; reflexivity).
+  rewrite ps_sub_step; [|assumption|destruct (render_toks l); [discriminate|exact Hne]].
+  replace ((render_toks l ++ [cRP]) ++ rest) with (render_toks l ++ cRP :: rest) by (rewrite <- app_assoc; reflexivity).
+  rewrite (WFc_all l Hfl Hfo) by lia. cbn [bind hd_ suf]. change (cRP =? cRP) with true. cbn iota.
+  destruct n as [|n]; [lia|]. rewrite process_scope_S. cbn [suf]. change (cRP =? cRP) with true. cbn iota.
+  cbn [fst]. rewrite ?adv1_cons. reflexivity.
+Qed.
+End Sub.
+
+Section W2toks.
+Variable g : str.
+
+Lemma render_toks_cons t l : render_toks (t :: l) = render_tok t ++ render_toks l.
+Proof. reflexivity. Qed.
+
+(* the balanced-delimiter walker over a token list that ends with its closer *)
+Definition WEc (l : list tok) : Prop :=
+  forall endc n p rest, (endc = cRB \/ endc = cRP) -> (n > 3 * length (render_toks l))%nat ->
+  walk_escaped g n (mkcur p (render_toks l ++ endc :: rest)) endc
+  = Ok (mkcur (lastp p (render_toks l)) (endc :: rest)).
+
+Lemma WEc_nil : WEc [].
+Proof.
+  intros endc n p rest He Hn. destruct n as [|n]; [cbn in Hn; lia|].
+  rewrite walk_escaped_S. cbn [render_toks flat_map app suf]. now rewrite N.eqb_refl.
+Qed.
+
+Definition WEstep (t : tok) : Prop :=
+  tok_ok true t = true -> deep_follow t = true ->
+  forall tl, follow_ok t tl = true -> WEc tl -> WEc (t :: tl).
+(* what the induction also has to deliver for the content of $((...)) *)
+Definition Inner (t : tok) : Prop :=
+  match t with
+  | TArith l => forallb (tok_ok true) l = true -> forallb deep_follow l = true -> follows l = true -> WEc l
+  | _ => True
+  end.
+
+
+Lemma WEc_from_steps l : Forall WEstep l ->
+  forallb (tok_ok true) l = true -> forallb deep_follow l = true -> follows l = true -> WEc l.
+Proof.
+  induction 1 as [|t l Ht _ IH]; intros H1 H2 H3; [apply WEc_nil|].
+  cbn [forallb follows] in *. apply andb_true_iff in H1 as [A1 A2]. apply andb_true_iff in H2 as [B1 B2].
+  apply andb_true_iff in H3 as [C1 C2]. apply Ht; auto.
+Qed.
+
+Lemma next_char s tl endc rest :
+  follow_ok (TVar s) tl = true -> var_follow s endc = true ->
+  exists c Y, render_toks tl ++ endc :: rest = c :: Y /\ var_follow s c = true.
+Proof.
+  unfold follow_ok. intros H He. destruct (render_toks tl) as [|c Y]; cbn [app]; eauto.
+Qed.
+Lemma var_follow_closer s c : mem c [cRB; cRP; cDQ; cSEMI; cNL] = true -> var_follow s c = true.
+Proof.
+  unfold mem. cbn [existsb]. intros H.
+  repeat (apply orb_true_iff in H as [H|H]); try discriminate H;
+    apply N.eqb_eq in H; subst c; unfold var_follow; cbn; now rewrite orb_true_r.
+Qed.
+
+(* $((...)): walk_dollar_expansion calls process_scope with endchar ")", which sees "(" and hands
+   the content to the balanced walker *)
+Lemma walk_dollar_arith l n p rest endc dq :
+  WEc l -> (n > 3 * length (render_toks l) + 8)%nat ->
+  walk_dollar g n (mkcur p (cLP :: cLP :: render_toks l ++ cRP :: cRP :: rest)) endc dq
+  = Ok (mkcur (Some cRP) rest).
+Proof.
+  intros Hl Hn. destruct n as [|n]; [lia|]. rewrite walk_dollar_S. cbn [suf].
+  change (cLP =? cLP) with true. cbn iota. rewrite adv1_cons.
+  destruct n as [|n]; [lia|]. rewrite process_scope_S. cbn [suf].
+  change (cLP =? cRP) with false. change (isspace cLP) with false. change (cLP =? cHASH) with false. cbn iota.
+  rewrite is_function_lp, is_envvar_lp.
+  destruct n as [|n]; [lia|]. rewrite walk_complex_S. cbn [suf].
+  cbn -[walk_escaped walk_complex process_scope]. rewrite ?adv1_cons.
+  rewrite Hl by (auto || lia). cbn [bind]. rewrite adv1_cons.
+  destruct n as [|n]; [lia|]. rewrite walk_complex_S. cbn [suf].
+  change (cRP =? cRP) with true. cbn -[process_scope]. 
+  destruct n as [|n']; [lia|].
+  change (process_scope g (S (S n')) ?c cRP None None ?w None ?o) with (process_scope g (S (S n')) c cRP None None w None o).
+  rewrite process_scope_S. cbn [suf]. change (cRP =? cRP) with true. cbn iota. cbn [bind fst]. rewrite adv1_cons.
+  reflexivity.
+Qed.
+
+(* the inside of "..." with expansions *)
+Definition dtok_ok (d : tok) : bool :=
+  match d with
+  | TLit c => dq_char c
+  | TEsc c => negb (c =? cNUL)
+  | TPE s => forallb pe_char s
+  | TVar s => forallb is_ident s
+  | TArith l2 => forallb (tok_ok true) l2
+  | TSub l2 => sub_ok l2
+  | _ => false
+  end.
+Lemma tok_ok_dqx b l : tok_ok b (TDqx l) = forallb dtok_ok l.
+Proof. reflexivity. Qed.
+
+Definition WDc (l : list tok) : Prop :=
+  forall n p rest, (n > 3 * length (render_toks l))%nat ->
+  walk_escaped g n (mkcur p (render_toks l ++ cDQ :: rest)) cDQ
+  = Ok (mkcur (lastp p (render_toks l)) (cDQ :: rest)).
+
+Lemma WDc_nil : WDc [].
+Proof. intros n p rest Hn. destruct n as [|n]; [cbn in Hn; lia|]. reflexivity. Qed.
+
+Lemma WDc_cons t tl :
+  dtok_ok t = true -> Inner t -> deep_follow t = true -> follow_ok t tl = true -> WDc tl -> WDc (t :: tl).
+Proof.
+  intros Hok Hin Hdf Hfo IH n p rest Hn. rewrite render_toks_cons in *.
+  destruct t as [c|c|s|l|s|l|s|l|l| |l|l|l]; try discriminate Hok;
+    cbn [render_tok dtok_ok] in *; rewrite ?app_length in Hn; cbn [length] in Hn; (destruct n as [|n]; [lia|]).
+  - (* TLit *)
+    change (([c] ++ render_toks tl) ++ cDQ :: rest) with (c :: (render_toks tl ++ cDQ :: rest)).
+    rewrite walk_escaped_S. cbn [suf]. change (cDQ =? cDQ) with true. cbn [negb].
+    unfold dq_char in Hok.
+    ctest Hok; cbn [orb andb negb]; rewrite ?adv1_cons; (rewrite IH; [|lia]); lastp_norm.
+  - (* TEsc *)
+    change (([cBS; c] ++ render_toks tl) ++ cDQ :: rest) with (cBS :: c :: (render_toks tl ++ cDQ :: rest)).
+    rewrite walk_escaped_S. cbn [suf]. cbn. rewrite ?adv1_cons. (rewrite IH; [|lia]); lastp_norm.
+  - (* TPE *)
+    replace ((([cDOL; cLB] ++ s ++ [cRB]) ++ render_toks tl) ++ cDQ :: rest)
+      with (cDOL :: (cLB :: s ++ cRB :: (render_toks tl ++ cDQ :: rest)))
+      by (cbn; rewrite <- !app_assoc; reflexivity).
+    rewrite walk_escaped_S. cbn [suf]. cbn -[walk_escaped walk_dollar]. rewrite ?adv1_cons.
+    (rewrite walk_dollar_pe; [|assumption|lia]). cbn [bind]. (rewrite IH; [|lia]); lastp_norm.
+  - (* TVar *)
+    destruct (next_char s tl cDQ rest Hfo (var_follow_closer s cDQ eq_refl)) as (c & Y & EY & Hc).
+    replace (((cDOL :: s) ++ render_toks tl) ++ cDQ :: rest) with (cDOL :: (s ++ (render_toks tl ++ cDQ :: rest)))
+      by (cbn; rewrite <- app_assoc; reflexivity).
+    rewrite walk_escaped_S. cbn [suf]. cbn -[walk_escaped walk_dollar]. rewrite ?adv1_cons.
+    rewrite EY. (rewrite walk_dollar_var; [|assumption|reflexivity|assumption|lia]). cbn [bind].
+    rewrite <- EY. (rewrite IH; [|lia]); lastp_norm.
+  - (* TArith *)
+    cbn [deep_follow] in Hdf. apply andb_true_iff in Hdf as [D1 D2].
+    assert (Hl : WEc l) by (apply Hin; assumption).
+    replace ((([cDOL; cLP; cLP] ++ flat_map render_tok l ++ [cRP; cRP]) ++ render_toks tl) ++ cDQ :: rest)
+      with (cDOL :: (cLP :: cLP :: render_toks l ++ cRP :: cRP :: (render_toks tl ++ cDQ :: rest)))
+      by (unfold render_toks; cbn; rewrite <- !app_assoc; reflexivity).
+    rewrite walk_escaped_S. cbn [suf]. cbn -[walk_escaped walk_dollar]. rewrite ?adv1_cons.
+    (rewrite walk_dollar_arith; [|assumption|fold (render_toks l) in Hn; lia]). cbn [bind].
+    (rewrite IH; [|lia]); fold (render_toks l); lastp_norm.
+  - (* TSub *)
+    replace ((([cDOL; cLP] ++ flat_map render_tok l ++ [cRP]) ++ render_toks tl) ++ cDQ :: rest)
+      with (cDOL :: (cLP :: render_toks l ++ cRP :: (render_toks tl ++ cDQ :: rest)))
+      by (unfold render_toks; cbn; rewrite <- !app_assoc; reflexivity).
+    rewrite walk_escaped_S. cbn [suf]. cbn -[walk_escaped walk_dollar]. rewrite ?adv1_cons.
+    (rewrite walk_dollar_sub; [|assumption|fold (render_toks l) in Hn; lia]). cbn [bind].
+    (rewrite IH; [|lia]); fold (render_toks l); lastp_norm.
+Qed.
+
+Lemma WDc_from l : Forall Inner l ->
+  forallb dtok_ok l = true -> forallb deep_follow l = true -> follows l = true -> WDc l.
+Proof.
+  induction 1 as [|t l Ht _ IH]; intros H1 H2 H3; [apply WDc_nil|].
+  cbn [forallb follows] in *. apply andb_true_iff in H1 as [A1 A2]. apply andb_true_iff in H2 as [B1 B2].
+  apply andb_true_iff in H3 as [C1 C2]. apply WDc_cons; auto.
+Qed.
+
+Lemma WEstep_all : forall t, WEstep t /\ Inner t.
+Proof.
+  apply tok_ind2.
+  - (* TLit *) intros c. split; [|exact I]. intros Hok Hdf tl Hfo IH endc n p rest He Hn.
+    rewrite render_toks_cons in *. cbn [render_tok] in *. rewrite app_length in Hn. cbn [length] in Hn.
+    destruct n as [|n]; [lia|].
+    change (([c] ++ render_toks tl) ++ endc :: rest) with (c :: (render_toks tl ++ endc :: rest)).
+    rewrite walk_escaped_S. cbn [suf]. cbn [tok_ok] in Hok.
+    destruct He; subst endc; ctest Hok; cbn [orb andb negb]; rewrite ?adv1_cons;
+      (rewrite IH; [|auto|lia]); lastp_norm.
+  - (* TEsc *) intros c. split; [|exact I]. intros Hok Hdf tl Hfo IH endc n p rest He Hn.
+    rewrite render_toks_cons in *. cbn [render_tok] in *. rewrite app_length in Hn. cbn [length] in Hn.
+    destruct n as [|n]; [lia|].
+    change (([cBS; c] ++ render_toks tl) ++ endc :: rest) with (cBS :: c :: (render_toks tl ++ endc :: rest)).
+    rewrite walk_escaped_S. cbn [suf].
+    destruct He; subst endc; cbn; rewrite ?adv1_cons; (rewrite IH; [|auto|lia]); lastp_norm.
+  - (* TSq *) intros s. split; [|exact I]. intros Hok Hdf tl Hfo IH endc n p rest He Hn.
+    rewrite render_toks_cons in *. cbn [render_tok] in *. rewrite !app_length in Hn. cbn [length] in Hn.
+    destruct n as [|n]; [lia|].
+    replace ((([cSQ] ++ s ++ [cSQ]) ++ render_toks tl) ++ endc :: rest)
+      with (cSQ :: (s ++ cSQ :: (render_toks tl ++ endc :: rest)))
+      by (cbn; rewrite <- !app_assoc; reflexivity).
+    rewrite walk_escaped_S. cbn [suf]. cbn [tok_ok] in Hok.
+    assert (Hs := forallb_neq_sq s Hok).
+    destruct He; subst endc; cbn -[walk_no_parsing walk_escaped]; rewrite ?adv1_cons;
+      rewrite walk_no_parsing_app by assumption; rewrite adv1_cons;
+      (rewrite IH; [|auto|lia]); lastp_norm.
+  - (* TDq *) intros l. split; [|exact I]. intros Hok Hdf tl Hfo IH endc n p rest He Hn.
+    rewrite render_toks_cons in *. cbn [render_tok] in *. rewrite !app_length in Hn. cbn [length] in Hn.
+    destruct n as [|n]; [lia|].
+    replace ((([cDQ] ++ render_pairs l ++ [cDQ]) ++ render_toks tl) ++ endc :: rest)
+      with (cDQ :: (render_pairs l ++ cDQ :: (render_toks tl ++ endc :: rest)))
+      by (cbn; rewrite <- !app_assoc; reflexivity).
+    rewrite walk_escaped_S. cbn [suf]. cbn [tok_ok] in Hok.
+    destruct He; subst endc; cbn -[walk_escaped]; rewrite ?adv1_cons;
+      (rewrite walk_dq; [|assumption|lia]); cbn [bind]; rewrite adv1_cons;
+      (rewrite IH; [|auto|lia]); lastp_norm.
+  - (* TPE *) intros s. split; [|exact I]. intros Hok Hdf tl Hfo IH endc n p rest He Hn.
+    rewrite render_toks_cons in *. cbn [render_tok] in *. rewrite !app_length in Hn. cbn [length] in Hn.
+    destruct n as [|n]; [lia|].
+    replace ((([cDOL; cLB] ++ s ++ [cRB]) ++ render_toks tl) ++ endc :: rest)
+      with (cDOL :: (cLB :: s ++ cRB :: (render_toks tl ++ endc :: rest)))
+      by (cbn; rewrite <- !app_assoc; reflexivity).
+    rewrite walk_escaped_S. cbn [suf]. cbn [tok_ok] in Hok.
+    destruct He; subst endc; cbn -[walk_escaped walk_dollar]; rewrite ?adv1_cons;
+      (rewrite walk_dollar_pe; [|assumption|lia]); cbn [bind];
+      (rewrite IH; [|auto|lia]); lastp_norm.
+  - (* TAnsi *) intros l. split; [|exact I]. intros Hok Hdf tl Hfo IH endc n p rest He Hn.
+    rewrite render_toks_cons in *. cbn [render_tok] in *. rewrite !app_length in Hn. cbn [length] in Hn.
+    destruct n as [|n]; [lia|].
+    replace ((([cDOL; cSQ] ++ render_pairs l ++ [cSQ]) ++ render_toks tl) ++ endc :: rest)
+      with (cDOL :: (cSQ :: render_pairs l ++ cSQ :: (render_toks tl ++ endc :: rest)))
+      by (cbn; rewrite <- !app_assoc; reflexivity).
+    rewrite walk_escaped_S. cbn [suf]. cbn [tok_ok] in Hok.
+    destruct He; subst endc; cbn -[walk_escaped walk_dollar]; rewrite ?adv1_cons;
+      (rewrite walk_dollar_ansi; [|assumption|lia]); cbn [bind];
+      (rewrite IH; [|auto|lia]); lastp_norm.
+  - (* TVar *) intros s. split; [|exact I]. intros Hok Hdf tl Hfo IH endc n p rest He Hn.
+    rewrite render_toks_cons in *. cbn [render_tok] in *. rewrite !app_length in Hn. cbn [length] in Hn.
+    destruct n as [|n]; [lia|]. cbn [tok_ok] in Hok.
+    assert (Hce : var_follow s endc = true) by (destruct He; subst endc; apply var_follow_closer; reflexivity).
+    destruct (next_char s tl endc rest Hfo Hce) as (c & Y & EY & Hc).
+    replace (((cDOL :: s) ++ render_toks tl) ++ endc :: rest) with (cDOL :: (s ++ (render_toks tl ++ endc :: rest)))
+      by (cbn; rewrite <- app_assoc; reflexivity).
+    rewrite walk_escaped_S. cbn [suf].
+    destruct He; subst endc; cbn -[walk_escaped walk_dollar]; rewrite ?adv1_cons; rewrite EY;
+      (rewrite walk_dollar_var; [|assumption|reflexivity|assumption|lia]); cbn [bind]; rewrite <- EY;
+      (rewrite IH; [|auto|lia]); lastp_norm.
+  - (* TArith *) intros l HF. split.
+    + intros Hok Hdf tl Hfo IH endc n p rest He Hn.
+      assert (Hl : WEc l).
+      { cbn [tok_ok deep_follow] in Hok, Hdf. apply andb_true_iff in Hdf as [D1 D2].
+        apply WEc_from_steps; auto. eapply Forall_impl; [|exact HF]. intros a [Ha _]; exact Ha. }
+      rewrite render_toks_cons in *. cbn [render_tok] in *. rewrite !app_length in Hn. cbn [length] in Hn.
+      destruct n as [|n]; [lia|].
+      replace ((([cDOL; cLP; cLP] ++ flat_map render_tok l ++ [cRP; cRP]) ++ render_toks tl) ++ endc :: rest)
+        with (cDOL :: (cLP :: cLP :: render_toks l ++ cRP :: cRP :: (render_toks tl ++ endc :: rest)))
+        by (unfold render_toks; cbn; rewrite <- !app_assoc; reflexivity).
+      rewrite walk_escaped_S. cbn [suf].
+      destruct He; subst endc; cbn -[walk_escaped walk_dollar]; rewrite ?adv1_cons;
+        (rewrite walk_dollar_arith; [|assumption|fold (render_toks l) in Hn; lia]); cbn [bind];
+        (rewrite IH; [|auto|lia]); fold (render_toks l); lastp_norm.
+    + cbn [Inner]. intros A B C. apply WEc_from_steps; auto.
+      eapply Forall_impl; [|exact HF]. intros a [Ha _]; exact Ha.
+  - (* TDqx *) intros l HF. split; [|exact I]. intros Hok Hdf tl Hfo IH endc n p rest He Hn.
+    assert (Hl : WDc l).
+    { rewrite tok_ok_dqx in Hok. cbn [deep_follow] in Hdf. apply andb_true_iff in Hdf as [D1 D2].
+      apply WDc_from; auto. eapply Forall_impl; [|exact HF]. intros a [_ Ha]; exact Ha. }
+    rewrite render_toks_cons in *. cbn [render_tok] in *. rewrite !app_length in Hn. cbn [length] in Hn.
+    destruct n as [|n]; [lia|].
+    replace ((([cDQ] ++ flat_map render_tok l ++ [cDQ]) ++ render_toks tl) ++ endc :: rest)
+      with (cDQ :: (render_toks l ++ cDQ :: (render_toks tl ++ endc :: rest)))
+      by (unfold render_toks; cbn; rewrite <- !app_assoc; reflexivity).
+    rewrite walk_escaped_S. cbn [suf].
+    destruct He; subst endc; cbn -[walk_escaped]; rewrite ?adv1_cons;
+      (rewrite Hl; [|fold (render_toks l) in Hn; lia]); cbn [bind]; rewrite adv1_cons;
+      (rewrite IH; [|auto|lia]); fold (render_toks l); lastp_norm.
+  - (* THs *) split; [|exact I]. intros Hok. discriminate Hok.
+  - (* TSub *) intros l. split; [|exact I]. intros Hok Hdf tl Hfo IH endc n p rest He Hn.
+    rewrite render_toks_cons in *. cbn [render_tok] in *. rewrite !app_length in Hn. cbn [length] in Hn.
+    destruct n as [|n]; [lia|]. cbn [tok_ok] in Hok.
+    replace ((([cDOL; cLP] ++ flat_map render_tok l ++ [cRP]) ++ render_toks tl) ++ endc :: rest)
+      with (cDOL :: (cLP :: render_toks l ++ cRP :: (render_toks tl ++ endc :: rest)))
+      by (unfold render_toks; cbn; rewrite <- !app_assoc; reflexivity).
+    rewrite walk_escaped_S. cbn [suf].
+    destruct He; subst endc; cbn -[walk_escaped walk_dollar]; rewrite ?adv1_cons;
+      (rewrite walk_dollar_sub; [|assumption|fold (render_toks l) in Hn; lia]); cbn [bind];
+      (rewrite IH; [|auto|lia]); fold (render_toks l); lastp_norm.
+  - (* TBr *) intros l HF. split; [|exact I]. intros Hok Hdf tl Hfo IH endc n p rest He Hn.
+    assert (Hl : WEc l).
+    { cbn [tok_ok deep_follow] in Hok, Hdf. apply andb_true_iff in Hdf as [D1 D2].
+      apply WEc_from_steps; auto. eapply Forall_impl; [|exact HF]. intros a [Ha _]; exact Ha. }
+    rewrite render_toks_cons in *. cbn [render_tok] in *. rewrite !app_length in Hn. cbn [length] in Hn.
+    destruct n as [|n]; [lia|].
+    replace ((([cLB] ++ flat_map render_tok l ++ [cRB]) ++ render_toks tl) ++ endc :: rest)
+      with (cLB :: (render_toks l ++ cRB :: (render_toks tl ++ endc :: rest)))
+      by (unfold render_toks; cbn; rewrite <- !app_assoc; reflexivity).
+    rewrite walk_escaped_S. cbn [suf].
+    destruct He; subst endc; cbn -[walk_escaped]; rewrite ?adv1_cons;
+      (rewrite Hl; [|auto|fold (render_toks l) in Hn; lia]); cbn [bind]; rewrite adv1_cons;
+      (rewrite IH; [|auto|lia]); fold (render_toks l); lastp_norm.
+  - (* TPar *) intros l HF. split; [|exact I]. intros Hok Hdf tl Hfo IH endc n p rest He Hn.
+    assert (Hl : WEc l).
+    { cbn [tok_ok deep_follow] in Hok, Hdf. apply andb_true_iff in Hdf as [D1 D2].
+      apply WEc_from_steps; auto. eapply Forall_impl; [|exact HF]. intros a [Ha _]; exact Ha. }
+    rewrite render_toks_cons in *. cbn [render_tok] in *. rewrite !app_length in Hn. cbn [length] in Hn.
+    destruct n as [|n]; [lia|].
+    replace ((([cLP] ++ flat_map render_tok l ++ [cRP]) ++ render_toks tl) ++ endc :: rest)
+      with (cLP :: (render_toks l ++ cRP :: (render_toks tl ++ endc :: rest)))
+      by (unfold render_toks; cbn; rewrite <- !app_assoc; reflexivity).
+    rewrite walk_escaped_S. cbn [suf].
+    destruct He; subst endc; cbn -[walk_escaped]; rewrite ?adv1_cons;
+      (rewrite Hl; [|auto|fold (render_toks l) in Hn; lia]); cbn [bind]; rewrite adv1_cons;
+      (rewrite IH; [|auto|lia]); fold (render_toks l); lastp_norm.
+Qed.
+
+Lemma WEc_all l :
+  forallb (tok_ok true) l = true -> forallb deep_follow l = true -> follows l = true -> WEc l.
+Proof.
+  intros. apply WEc_from_steps; auto. apply Forall_forall. intros t _. apply WEstep_all.
+Qed.
+Lemma WDc_all l :
+  forallb dtok_ok l = true -> forallb deep_follow l = true -> follows l = true -> WDc l.
+Proof.
+  intros. apply WDc_from; auto. apply Forall_forall. intros t _. apply WEstep_all.
+Qed.
+End W2toks.
+
+Section W1.
+Variable g : str.
+
+(* the statement walker (function level, COMMAND_PARSING, endchar "}") over one statement *)
+Definition WCc (l : list tok) : Prop :=
+  forall n p rest sep first, (sep = cSEMI \/ sep = cNL) -> (n > 3 * length (render_toks l))%nat ->
+  walk_complex g n (mkcur p (render_toks l ++ sep :: rest)) cRB COMMAND first
+  = Ok (mkcur (lastp p (render_toks l)) (sep :: rest)).
+
+Lemma WCc_nil : WCc [].
+Proof.
+  intros n p rest sep first Hs Hn. destruct n as [|n]; [cbn in Hn; lia|].
+  rewrite walk_complex_S. cbn [render_toks flat_map app suf].
+  destruct Hs; subst sep; reflexivity.
+Qed.
+
+Lemma WCc_cons t tl :
+  tok_ok1 t = true -> deep_follow t = true -> follow_ok t tl = true -> WCc tl -> WCc (t :: tl).
+Proof.
+  intros Hok Hdf Hfo IH n p rest sep first Hs Hn.
+  rewrite render_toks_cons in *.
+  destruct t as [c|c|s|l|s|l|s|l|l| |l|l|l]; cbn [render_tok] in *; rewrite ?app_length in Hn; cbn [length] in Hn;
+    (destruct n as [|n]; [lia|]).
+  - (* TLit *)
+    change (([c] ++ render_toks tl) ++ sep :: rest) with (c :: (render_toks tl ++ sep :: rest)).
+    rewrite walk_complex_S. cbn [suf]. cbn [tok_ok1] in Hok.
+    ctest Hok; cbn [orb andb negb COMMAND]; rewrite ?adv1_cons;
+      (rewrite IH; [|auto|lia]); lastp_norm.
+  - (* TEsc *)
+    change (([cBS; c] ++ render_toks tl) ++ sep :: rest) with (cBS :: c :: (render_toks tl ++ sep :: rest)).
+    rewrite walk_complex_S. cbn [suf]. cbn. rewrite ?adv1_cons. (rewrite IH; [|auto|lia]); lastp_norm.
+  - (* TSq *)
+    replace ((([cSQ] ++ s ++ [cSQ]) ++ render_toks tl) ++ sep :: rest)
+      with (cSQ :: (s ++ cSQ :: (render_toks tl ++ sep :: rest)))
+      by (cbn; rewrite <- !app_assoc; reflexivity).
+    rewrite walk_complex_S. cbn [suf]. cbn [tok_ok1 tok_ok] in Hok.
+    assert (Hs' := forallb_neq_sq s Hok).
+    cbn -[walk_no_parsing walk_complex]. rewrite ?adv1_cons.
+    rewrite walk_no_parsing_app by assumption. rewrite adv1_cons.
+    (rewrite IH; [|auto|lia]); lastp_norm.
+  - (* TDq *)
+    replace ((([cDQ] ++ render_pairs l ++ [cDQ]) ++ render_toks tl) ++ sep :: rest)
+      with (cDQ :: (render_pairs l ++ cDQ :: (render_toks tl ++ sep :: rest)))
+      by (cbn; rewrite <- !app_assoc; reflexivity).
+    rewrite walk_complex_S. cbn [suf]. cbn [tok_ok1 tok_ok] in Hok.
+    cbn -[walk_escaped walk_complex]. rewrite ?adv1_cons.
+    (rewrite walk_dq; [|assumption|lia]). cbn [bind]. rewrite adv1_cons.
+    (rewrite IH; [|auto|lia]); lastp_norm.
+  - (* TPE *)
+    replace ((([cDOL; cLB] ++ s ++ [cRB]) ++ render_toks tl) ++ sep :: rest)
+      with (cDOL :: (cLB :: s ++ cRB :: (render_toks tl ++ sep :: rest)))
+      by (cbn; rewrite <- !app_assoc; reflexivity).
+    rewrite walk_complex_S. cbn [suf]. cbn [tok_ok1 tok_ok] in Hok.
+    cbn -[walk_dollar walk_complex]. rewrite ?adv1_cons.
+    (rewrite walk_dollar_pe; [|assumption|lia]). cbn [bind].
+    (rewrite IH; [|auto|lia]); lastp_norm.
+  - (* TAnsi *)
+    replace ((([cDOL; cSQ] ++ render_pairs l ++ [cSQ]) ++ render_toks tl) ++ sep :: rest)
+      with (cDOL :: (cSQ :: render_pairs l ++ cSQ :: (render_toks tl ++ sep :: rest)))
+      by (cbn; rewrite <- !app_assoc; reflexivity).
+    rewrite walk_complex_S. cbn [suf]. cbn [tok_ok1 tok_ok] in Hok.
+    cbn -[walk_dollar walk_complex]. rewrite ?adv1_cons.
+    (rewrite walk_dollar_ansi; [|assumption|lia]). cbn [bind].
+    (rewrite IH; [|auto|lia]); lastp_norm.
+  - (* TVar *)
+    assert (Hce : var_follow s sep = true) by (destruct Hs; subst sep; apply var_follow_closer; reflexivity).
+    destruct (next_char s tl sep rest Hfo Hce) as (c & Y & EY & Hc).
+    replace (((cDOL :: s) ++ render_toks tl) ++ sep :: rest) with (cDOL :: (s ++ (render_toks tl ++ sep :: rest)))
+      by (cbn; rewrite <- app_assoc; reflexivity).
+    rewrite walk_complex_S. cbn [suf]. cbn [tok_ok1 tok_ok] in Hok.
+    cbn -[walk_dollar walk_complex]. rewrite ?adv1_cons. rewrite EY.
+    (rewrite walk_dollar_var; [|assumption|reflexivity|assumption|lia]). cbn [bind]. rewrite <- EY.
+    (rewrite IH; [|auto|lia]); lastp_norm.
+  - (* TArith *)
+    cbn [deep_follow] in Hdf. apply andb_true_iff in Hdf as [D1 D2]. cbn [tok_ok1 tok_ok] in Hok.
+    replace ((([cDOL; cLP; cLP] ++ flat_map render_tok l ++ [cRP; cRP]) ++ render_toks tl) ++ sep :: rest)
+      with (cDOL :: (cLP :: cLP :: render_toks l ++ cRP :: cRP :: (render_toks tl ++ sep :: rest)))
+      by (unfold render_toks; cbn; rewrite <- !app_assoc; reflexivity).
+    rewrite walk_complex_S. cbn [suf].
+    cbn -[walk_dollar walk_complex]. rewrite ?adv1_cons.
+    (rewrite (walk_dollar_arith g l); [|apply WEc_all; assumption|fold (render_toks l) in Hn; lia]). cbn [bind].
+    (rewrite IH; [|auto|lia]); fold (render_toks l); lastp_norm.
+  - (* TDqx *)
+    cbn [deep_follow] in Hdf. apply andb_true_iff in Hdf as [D1 D2]. cbn [tok_ok1] in Hok. rewrite tok_ok_dqx in Hok.
+    replace ((([cDQ] ++ flat_map render_tok l ++ [cDQ]) ++ render_toks tl) ++ sep :: rest)
+      with (cDQ :: (render_toks l ++ cDQ :: (render_toks tl ++ sep :: rest)))
+      by (unfold render_toks; cbn; rewrite <- !app_assoc; reflexivity).
+    rewrite walk_complex_S. cbn [suf].
+    cbn -[walk_escaped walk_complex]. rewrite ?adv1_cons.
+    (rewrite (WDc_all g l Hok D2 D1); [|fold (render_toks l) in Hn; lia]). cbn [bind]. rewrite adv1_cons.
+    (rewrite IH; [|auto|lia]); fold (render_toks l); lastp_norm.
+  - (* THs *)
+    change (([cLT; cLT; cLT] ++ render_toks tl) ++ sep :: rest) with (cLT :: cLT :: cLT :: (render_toks tl ++ sep :: rest)).
+    rewrite walk_complex_S. cbn [suf]. cbn -[walk_here walk_complex]. rewrite ?adv1_cons.
+    destruct n as [|n]; [lia|]. rewrite walk_here_lt. cbn [bind].
+    (rewrite IH; [|auto|lia]); lastp_norm.
+  - (* TSub *)
+    cbn [tok_ok1 tok_ok] in Hok.
+    replace ((([cDOL; cLP] ++ flat_map render_tok l ++ [cRP]) ++ render_toks tl) ++ sep :: rest)
+      with (cDOL :: (cLP :: render_toks l ++ cRP :: (render_toks tl ++ sep :: rest)))
+      by (unfold render_toks; cbn; rewrite <- !app_assoc; reflexivity).
+    rewrite walk_complex_S. cbn [suf].
+    cbn -[walk_dollar walk_complex]. rewrite ?adv1_cons.
+    (rewrite walk_dollar_sub; [|assumption|fold (render_toks l) in Hn; lia]). cbn [bind].
+    (rewrite IH; [|auto|lia]); fold (render_toks l); lastp_norm.
+  - (* TBr *)
+    replace ((([cLB] ++ flat_map render_tok l ++ [cRB]) ++ render_toks tl) ++ sep :: rest)
+      with (cLB :: (render_toks l ++ cRB :: (render_toks tl ++ sep :: rest)))
+      by (unfold render_toks; cbn; rewrite <- !app_assoc; reflexivity).
+    rewrite walk_complex_S. cbn [suf]. cbn [tok_ok1 tok_ok] in Hok.
+    cbn -[walk_escaped walk_complex]. rewrite ?adv1_cons.
+    cbn [deep_follow] in Hdf. apply andb_true_iff in Hdf as [D1 D2].
+    (rewrite (WEc_all g l Hok D2 D1); [|auto|fold (render_toks l) in Hn; lia]). cbn [bind]. rewrite adv1_cons.
+    (rewrite IH; [|auto|lia]); fold (render_toks l); lastp_norm.
+  - (* TPar *)
+    replace ((([cLP] ++ flat_map render_tok l ++ [cRP]) ++ render_toks tl) ++ sep :: rest)
+      with (cLP :: (render_toks l ++ cRP :: (render_toks tl ++ sep :: rest)))
+      by (unfold render_toks; cbn; rewrite <- !app_assoc; reflexivity).
+    rewrite walk_complex_S. cbn [suf]. cbn [tok_ok1 tok_ok] in Hok.
+    cbn -[walk_escaped walk_complex]. rewrite ?adv1_cons.
+    cbn [deep_follow] in Hdf. apply andb_true_iff in Hdf as [D1 D2].
+    (rewrite (WEc_all g l Hok D2 D1); [|auto|fold (render_toks l) in Hn; lia]). cbn [bind]. rewrite adv1_cons.
+    (rewrite IH; [|auto|lia]); fold (render_toks l); lastp_norm.
+Qed.
+
+Lemma WCc_all l :
+  forallb tok_ok1 l = true -> forallb deep_follow l = true -> follows l = true -> WCc l.
+Proof.
+  induction l as [|t l IH]; intros H1 H2 H3; [apply WCc_nil|].
+  cbn [forallb follows] in *. apply andb_true_iff in H1 as [A1 A2]. apply andb_true_iff in H2 as [B1 B2].
+  apply andb_true_iff in H3 as [C1 C2]. apply WCc_cons; auto.
+Qed.
+End W1.
+
 (* ---------------------------------------------------------------- the body of a function *)
 Section Body.
 Variable g : str.
@@ -625,18 +1099,22 @@ Proof.
   apply andb_true_iff in H as [H HG]. apply andb_true_iff in H as [H HF].
   apply andb_true_iff in H as [H HE]. apply andb_true_iff in H as [H HD].
   apply andb_true_iff in H as [H HC]. apply andb_true_iff in H as [HA HB].
-  destruct (word_then (c :: r)) as [d|] eqn:W; [|discriminate].
-  apply negb_true_iff in HA, HB, HC, HD, HG.
+  apply negb_true_iff in HA, HB, HC, HD.
   cbn [app]. rewrite process_scope_S. cbn [suf]. rewrite HC, HA, HB.
-  rewrite (is_function_none p c (r ++ rest) d); auto.
-  - rewrite is_envvar_none; auto.
-    change (c :: r ++ rest) with ((c :: r) ++ rest). now apply no_eq_app.
-  - change (c :: r ++ rest) with ((c :: r) ++ rest). now apply diverges_app.
-  - change (c :: r ++ rest) with ((c :: r) ++ rest). now apply word_then_app.
+  assert (HF' : is_function (mkcur p (c :: r ++ rest)) = None).
+  { destruct (name_stop c) eqn:Ens.
+    - apply is_function_stop; auto.
+      change (c :: r ++ rest) with ((c :: r) ++ rest). now apply diverges_app.
+    - cbn [orb] in HG. destruct (word_then (c :: r)) as [d|] eqn:W; [|discriminate].
+      apply negb_true_iff in HG. apply (is_function_none p c (r ++ rest) d); auto.
+      + change (c :: r ++ rest) with ((c :: r) ++ rest). now apply diverges_app.
+      + change (c :: r ++ rest) with ((c :: r) ++ rest). now apply word_then_app. }
+  rewrite HF'. rewrite is_envvar_none; auto.
+  change (c :: r ++ rest) with ((c :: r) ++ rest). now apply no_eq_app.
 Qed.
 
 Lemma PB b : forall n p rest ws out,
-  body_ok b = true -> (n > length (render_body b))%nat ->
+  body_ok b = true -> (n > 3 * length (render_body b))%nat ->
   exists out', process_scope g n (mkcur p (render_body b ++ cRB :: rest)) cRB None None ws None out
                = Ok (mkcur (lastp p (render_body b)) (cRB :: rest), out').
 Proof.
@@ -661,7 +1139,8 @@ Proof.
       by (rewrite <- !app_assoc; reflexivity).
     assert (Hsep : sep = cSEMI \/ sep = cNL).
     { apply orb_true_iff in H1 as [E|E]; apply N.eqb_eq in E; auto. }
-    rewrite (WCc_all g toks Hs); [|assumption|lia]. cbn [bind hd_ suf].
+    apply andb_true_iff in Hs as [Hs Hfw]. apply andb_true_iff in Hs as [Hs Hdf].
+    rewrite (WCc_all g toks Hs Hdf Hfw); [|assumption|lia]. cbn [bind hd_ suf].
     assert (sep =? cRB = false) as -> by (destruct Hsep; subst; reflexivity).
     rewrite adv1_cons.
     replace n with (length sws + (n - length sws))%nat by lia.
@@ -842,22 +1321,6 @@ Proof.
   - apply andb_true_iff in H as [H1 H2]. rewrite H1. cbn. eapply IH; eauto.
 Qed.
 
-Lemma ident_facts c : is_ident c = true ->
-  isspace c = false /\ isblank c = false /\ name_stop c = false /\ envvar_stop c = false
-  /\ (c =? cEQ) = false /\ (c =? cHASH) = false /\ (c =? cNUL) = false.
-Proof.
-  unfold is_ident. intros H.
-  repeat split;
-    match goal with |- ?f = false => destruct f eqn:E; [|reflexivity] end; exfalso;
-    unfold isspace, isblank, name_stop, envvar_stop, mem in E; cbn [existsb] in E;
-    repeat (apply orb_true_iff in E as [E|E]); try discriminate E;
-    repeat (apply andb_true_iff in E as [? E]);
-    repeat match goal with Hq : (_ =? _) = true |- _ => apply N.eqb_eq in Hq; subst; cbv in H; discriminate H end;
-    repeat match goal with Hq : (_ <=? _) = true |- _ => apply N.leb_le in Hq end;
-    repeat (apply orb_true_iff in H as [H|H]); repeat (apply andb_true_iff in H as [? H]);
-    repeat match goal with Hq : (_ <=? _) = true |- _ => apply N.leb_le in Hq end;
-    repeat match goal with Hq : (_ =? _) = true |- _ => apply N.eqb_eq in Hq end; unfold cUS in *; lia.
-Qed.
 
 Lemma fname_facts c : fname_char c = true ->
   isspace c = false /\ isblank c = false /\ name_stop c = false /\ (c =? cHASH) = false /\ (c =? cNUL) = false.
